@@ -97,7 +97,7 @@ def http_case(chk, s, rng, c, prev):
     check_request(chk, f, doc, level, "HTTP signAggregated")
     rid = int.from_bytes(f["payload"].get(1, b""), "big")
     reply = wire.sign_reply(a, rng, rid, doc, level, prev)
-    honest = all(wire_good("sign").get(k) == v for k, v in a.items())
+    honest = not devs(a, "sign")
     if reply is None:
         s.cmd("HTTPERR %d" % rng.choice([7, 28, 52, 56]))          # could not connect / timed out / empty reply / receive error
     else:
@@ -120,6 +120,12 @@ def judge(chk, c, ok, hash_ok, transport, line, s):
         chk.violation("rejected-honest:%s" % transport, "%s signing FAILED on an honest reply (request %s): %s" % (transport, c["req"], line[:200]), dict(case=c, log=s.log[-25:]))
     elif ok and not hash_ok:
         chk.violation("success-with-wrong-signature:%s" % transport, "success but the signature is not for the requested hash: %s" % line[:200], dict(case=c, log=s.log[-25:]))
+
+
+def devs(a, kind):
+    """attributes in which reply a deviates from the honest one; an absent status element is read as zero by the SDK (SignExtend.tla StatusZero), so it is none"""
+    g = wire_good(kind)
+    return sorted(k for k, v in a.items() if g.get(k) != v and not (k == "status" and v == "absent"))
 
 
 def wire_good(kind):
@@ -170,7 +176,7 @@ def run(chk, tier, seed):
     cases = [c for c in tlc_cases(chk, ["sign"])]
     if tier == "quick":
         rng2 = random.Random(seed + 1)
-        keep = [c for c in cases if c["reply"].get("what") == "-" or len([k for k, v in c["reply"].items() if wire_good("sign").get(k) != v]) <= 1]
+        keep = [c for c in cases if c["reply"].get("what") == "-" or len(devs(c["reply"], "sign")) <= 1]
         rest = [c for c in cases if c not in keep]
         rng2.shuffle(rest)
         cases_run = keep + rest[:400]
